@@ -41,7 +41,7 @@ type c09Kind struct{ code, text string }
 
 var c09Kinds = []c09Kind{
 	{"n0", "0"}, {"n1", "1"}, {"nm", "-1"}, {"nh", "0.5"}, {"nb", "1E+308"}, {"ni", "9007199254740992"},
-	{"ts", `"abc"`}, {"te", `""`}, {"tn", `"12"`},
+	{"ts", `"abc"`}, {"te", `""`}, {"tn", `"12"`}, {"tm", `"-2"`},
 	{"em", ""},
 	{"bt", "TRUE"},
 	{"er", "NA()"},
